@@ -182,3 +182,44 @@ def generate_constraint(h):
             env[tag + 'end'] = cur
             alts.append('(%s and seq_eq(r, %send))' % (' and '.join(conj), tag))
         h.check('solvers-chained-each-on-the-result-of-the-one-before-and-the-last-result-returned', ' or '.join(alts), **env)
+
+
+# ---------------------------------------------------------------------------- generate_penalty: summing the per-line terms
+PSTRUCTS = [('e0',), ('e0', 'i1'), ('i0', 'i1', 'e2'), (('e0', 'i1'), 'i2'), (('i0',), ('e1', 'e2'))]
+
+
+@contract('C14/generate_penalty', ['C14', 'C15'], 'mystic/symbolic.py::generate_penalty', native=False)
+def generate_penalty(h):
+    """the penalty built from a (possibly nested) tuple of condition functions -- as generate_conditions returns for a
+    tuple of constraint strings -- is the SUM of one quadratic term per condition (default types: quadratic_equality
+    k*c(x)^2 for an equality condition, quadratic_inequality 2k*max(0, c(x))^2 for an inequality condition -- the formulas
+    of C15 -- with k = 100 at iteration 0): no condition is dropped whatever the nesting, hence the penalty is zero exactly where every condition
+    is satisfied and positive elsewhere"""
+    if not h.is_sym():
+        h.unsupported('symbolic only')
+    struct = h.choice('conditions', PSTRUCTS)
+    names = _flat(struct)
+    fns = {nm: h.fn('COND_' + nm, ret='real', attrs={'__name__': ('inequality_' if nm[0] == 'i' else 'equality_') + nm, '__doc__': nm}) for nm in names}
+
+    def build(t):
+        return h.tup(*[build(x) if isinstance(x, tuple) else fns[x] for x in t])
+    pf = h.call(h.get('mystic/symbolic.py::generate_penalty'), build(struct))
+    x = h.vec('x', 2)
+    r = h.call(pf, x)
+    cs = {nm: h.call(h.fn('COND_' + nm, ret='real'), x) for nm in names}
+    terms = ['100 * %s * %s' % (nm, nm) if nm[0] == 'e' else '(200 * %s * %s if %s > 0 else 0)' % (nm, nm, nm) for nm in names]
+    sat = ['%s == 0' % nm if nm[0] == 'e' else '%s <= 0' % nm for nm in names]
+    h.check('penalty-is-the-sum-of-one-quadratic-term-per-condition', 'r == ' + ' + '.join(terms), r=r, **cs)
+    h.check('zero-exactly-where-every-condition-is-satisfied', 'iff(r == 0, %s)' % ' and '.join(sat), r=r, **cs)
+    h.check('never-negative', 'r >= 0', r=r, **cs)
+
+
+@contract('C14/approx.tolerance', ['C14', 'C13'], 'mystic/math/approx.py::tolerance', samples=200)
+def tolerance(h):
+    """_tol(x, tol, rel), the band the generated strict comparisons use: tol + |x| * rel -- never negative for
+    non-negative tol and rel, whatever the sign of x"""
+    x, tol, rel = h.real('x'), h.real('tol'), h.real('rel')
+    h.assume('tol >= 0 and rel >= 0', tol=tol, rel=rel)
+    r = h.call(h.get('mystic/math/approx.py::tolerance'), x, tol, rel)
+    h.check('absolute-plus-relative-band', 'r == tol + (x if x >= 0 else -x) * rel', r=r, x=x, tol=tol, rel=rel)
+    h.check('band-never-negative', 'r >= 0', r=r)
